@@ -295,7 +295,11 @@ class Angle(AngularPosition):
         self,
         other: AngularPosition | Angle
     ) -> AngularPosition | Angle:
-        super().__add__(other=other)
+        if not isinstance(other, AngularPosition):
+            raise TypeError(
+                f"It is not allowed to sum a {self.__class__.__name__} and a "
+                f"{other.__class__.__name__}."
+            )
 
         if isinstance(other, Angle):
             return Angle(
@@ -1689,7 +1693,11 @@ class TimeInterval(Time):
         self.__unit = unit
 
     def __add__(self, other: Time | TimeInterval) -> Time | TimeInterval:
-        super().__add__(other=other)
+        if not isinstance(other, Time):
+            raise TypeError(
+                f"It is not allowed to sum a {self.__class__.__name__} and a "
+                f"{other.__class__.__name__}."
+            )
 
         if isinstance(other, TimeInterval):
             return TimeInterval(
